@@ -40,6 +40,19 @@ build_product() {
     return 0
 }
 
+build_fuzz() {
+    # coverage-guided tier (thorough only): libFuzzer targets, nightly toolchain, AddressSanitizer, hooks ON
+    cp "$REPO/Cargo.lock" "$VERIF/fuzz/Cargo.lock" 2>/dev/null || true
+    (cd "$VERIF" && RUSTFLAGS="--cfg octo_squirrel_verif" cargo +nightly fuzz build --fuzz-dir fuzz --target-dir "$VERIF/target/fuzz" 2>"$VERIF/target/fuzz-build.log")
+    local rc=$?
+    if [ $rc -ne 0 ]; then
+        tail -40 "$VERIF/target/fuzz-build.log" >&2
+        log "fuzz target build failed (rc=$rc): inconclusive"
+        return 2
+    fi
+    return 0
+}
+
 mkdir -p "$VERIF/target" "$VERIF/evidence" "$VERIF/replays" "$VERIF/work"
 
 case "${1:-}" in
@@ -65,6 +78,13 @@ C[0-9][0-9])
         build_product || exit 2
         ;;
     esac
+    if [ "$TIER" = "thorough" ]; then
+        case "$ID" in
+        C02 | C03 | C04 | C05 | C06 | C07 | C10 | C11 | C12 | C13 | C14)
+            build_fuzz || exit 2
+            ;;
+        esac
+    fi
     export OVF_CLIENT_BIN="$PRODUCT_TARGET/release/octo-squirrel-client"
     export OVF_SERVER_BIN="$PRODUCT_TARGET/release/octo-squirrel-server"
     ulimit -n 65536 2>/dev/null || true
